@@ -45,8 +45,8 @@ theorem create_world (w : World) (hw : WFW w) (h fi : Nat) (hnone : w.acc h = no
       have hl := (hw.handles h' a'' ha'').live
       rw [ef] at hl
       have := (R.others a''.slot hl (hother_slot h' a'' ha'' ef)).1
-      show (f'.dd a''.slot).tag = _ ∧ (f'.dd a''.slot).ref = _ ∧ ((f'.dd a''.slot).ext = none ↔ _)
-      rw [this]; exact ⟨rfl, rfl, Iff.rfl⟩
+      show (f'.dd a''.slot).tag = _ ∧ (f'.dd a''.slot).ref = _ ∧ ((f'.dd a''.slot).ext = none → _)
+      rw [this]; exact ⟨rfl, rfl, id⟩
   refine ⟨hww, ?_⟩
   have := abs_update hw fi hfi { f' with attach := f'.attach + 1 } (R.wfe.attach _).toWFF h a' haf k (some (some B)) R.present
     (by
